@@ -236,11 +236,12 @@ def command_of(s, journal):
     if s["dur"]:
         parts.append("sleep %.3f" % (s["dur"] / 1000.0))
     if s["out"]:
-        parts.append("head -c %d /dev/zero | tr '\\0' o" % s["out"])
+        # "outlines": the same number of bytes as that many (empty) lines -- more lines than any channel has slots
+        parts.append("head -c %d /dev/zero | tr '\\0' '%s'" % (s["out"], "\\n" if s.get("outlines") else "o"))
     if s.get("garble"):
         parts.append("printf '\\377\\376garbled\\n'")
     if s["err"]:
-        parts.append("head -c %d /dev/zero | tr '\\0' e 1>&2" % s["err"])
+        parts.append("head -c %d /dev/zero | tr '\\0' '%s' 1>&2" % (s["err"], "\\n" if s.get("errlines") else "e"))
     for w in s["writes"]:
         d = os.path.dirname(w)
         if d:
@@ -338,7 +339,26 @@ def _one_run(env, spec, rr, root, base, e, certify, bound):
     t0 = time.time()
     outf = open(os.path.join(base, "stdout"), "wb")
     errf = open(os.path.join(base, "stderr"), "wb")
-    proc = subprocess.Popen([env.xvc, "-c", "pipeline.process_pool_size=%d" % spec["pool"], "pipeline", "run"],
+    # how the pool size is configured: -c (default), an XVC_ environment variable, the local or the project file
+    # of the repository.  A lower-priority source always comes with a DIFFERENT value in no higher one (the
+    # project file written by `xvc init` has the default 4: the local file, the environment and -c must win).
+    via = spec.get("pool_via", "cli")
+    argv = [env.xvc]
+    if via == "cli":
+        argv += ["-c", "pipeline.process_pool_size=%d" % spec["pool"]]
+    elif via == "env":
+        e["XVC_pipeline.process_pool_size"] = str(spec["pool"])
+    elif via == "local":
+        with open(os.path.join(root, ".xvc", "config.local.toml"), "w") as fh:     # `xvc init` writes a comment only
+            fh.write("# local configuration\n[pipeline]\nprocess_pool_size = %d\n" % spec["pool"])
+    elif via == "project":
+        pf = os.path.join(root, ".xvc", "config.toml")
+        txt = open(pf).read()
+        txt2 = re.sub(r"(?m)^process_pool_size\s*=\s*\d+", "process_pool_size = %d" % spec["pool"], txt)
+        if txt2 == txt and ("process_pool_size = %d" % spec["pool"]) not in txt:
+            txt2 = txt + "\n[pipeline]\nprocess_pool_size = %d\n" % spec["pool"]
+        open(pf, "w").write(txt2)
+    proc = subprocess.Popen(argv + ["pipeline", "run"],
                             cwd=root, env=e, stdout=outf, stderr=errf, stdin=subprocess.DEVNULL, start_new_session=True)
     rr.hung, rr.certified, rr.uncertified_timeout, rr.dead_thread, rr.mismatch, rr.variant = False, False, False, False, False, None
     next_look = HANG_FIRST_LOOK
